@@ -414,6 +414,34 @@ def fork_case(draw, max_nodes=8, families=("simple", "distance", "simple_n")):
 
 
 @st.composite
+def hashsquare_case(draw, families=("simple", "simple_n", "distance", "nk")):
+    """A block of four to six streets whose coordinates are all -1.0 or -2.0 - the two numbers CPython hashes alike
+    (hash(-1) == hash(-2)) - with observations exactly on the corners: any cache, set or dict keyed by hash(coordinates)
+    instead of the coordinates themselves confuses different observations or nodes."""
+    kind = pick(draw, ["int", "str", "negint"])
+    labs = draw(labels(4, kind))
+    pts = [(-2.0, -2.0), (-2.0, -1.0), (-1.0, -1.0), (-1.0, -2.0)]
+    nbrs = [[] for _ in range(4)]
+    for i in range(4):
+        j = (i + 1) % 4
+        nbrs[i].append(labs[j])
+        if not chance(draw, 2):
+            nbrs[j].append(labs[i])
+    if chance(draw, 5):
+        nbrs[0].append(labs[2])
+        nbrs[2].append(labs[0])
+    g = [[labs[i], list(pts[i]), nbrs[i]] for i in range(4)]
+    T = pick(draw, [3, 4, 4, 5, 6])
+    t, cur = [], draw(INT(0, 3))
+    for _ in range(T):
+        t.append(list(pts[cur]))
+        cur = (cur + pick(draw, [0, 1, 1, 1, 3])) % 4
+    c = draw(config(families=tuple(families), cutoffs=False))
+    c["obs_noise"] = pick(draw, [0.5, 1.0])
+    return {"graph": g, "trace": t, "config": c, "gen": "hashsquare"}
+
+
+@st.composite
 def star_case(draw, families=("simple", "simple_n", "distance", "nk")):
     """A hub with four two-segment spokes in the axis directions and observations on the diagonals: several paths are exactly
     equally probable (mirror images), so whatever decides among ties - creation order, listing order, hashing - shows.  The hub
